@@ -2,7 +2,7 @@
 import oracle as O
 from common import Case, Pred, tl
 from props.pairutil import IMPLS, f12, grp, lib_pairing, pair_case
-from props.util import nontrivial_default
+from props.util import nontrivial_default, structured_scales
 
 RULE = ("correspondence: the four pairing implementations of the model (hand-modelled Miller loops around the generated linefunc/double/add/"
         "twist) vs the real ones, comparing final-exponentiated FQ12 values exactly, on aG1/bG2 for a,b in {0,1,2,r-1,r,random}, sums, "
@@ -34,6 +34,9 @@ def cases(rng, tier):
             cs.append(pair_case(mod, O.aff_mul(g2.gen, b), O.aff_mul(g1.gen, a), rng))
         cs.append(pair_case(mod, None, g1.gen, rng))
         cs.append(pair_case(mod, g2.gen, None, rng))
+        if not ref:
+            for sq in structured_scales(g2.b)[1: (5 if tier == "quick" else 99)]:
+                cs.append(pair_case(mod, g2.gen, g1.gen, rng, sq=sq, sp=g1.b.like(1)))
         # off-curve arguments are refused
         offQ = (g2.gen[0], g2.gen[1] + 1)
         offP = (g1.gen[0], g1.gen[1] + 1)
@@ -92,6 +95,23 @@ def cheap_bilinear_pred(mod, a, b, seed):
     return (ok, f"{mod} pairing: e(bQ,aP) != e(Q,P)^(ab) or degenerate at a={a} b={b}")
 
 
+def rep_independence_pred(mod, a, b):
+    """bilinearity/non-degeneracy must not depend on the projective representative: structured scalings of Q and P"""
+    g1, g2 = _pts(mod)
+    P, Q = O.aff_mul(g1.gen, a), O.aff_mul(g2.gen, b)
+    base = lib_pairing(mod, Q, P)
+    bad = []
+    for sq in structured_scales(g2.b):
+        if lib_pairing(mod, Q, P, sq=sq, sp=g1.b.like(1)) != base:
+            bad.append(f"Q scaled by {sq}")
+    for sp in structured_scales(g1.b):
+        if lib_pairing(mod, Q, P, sq=g2.b.like(1), sp=sp) != base:
+            bad.append(f"P scaled by {sp}")
+    if base == [1] + [0] * 11:
+        bad.append("value is 1")
+    return (not bad, f"{mod}: pairing depends on the representative: {bad[:4]} (a={a}, b={b})")
+
+
 def edge_pred(mod):
     import importlib
     import pyexec
@@ -131,6 +151,9 @@ def predicates(rng, tier, only=None):
     ps = []
     for mod in IMPLS:
         ps.append(Pred("pairing-edges", edge_pred, (mod,)))
+        if mod.startswith("Opt"):
+            rr = grp(mod, "G1").order
+            ps.append(Pred("representative-independence", rep_independence_pred, (mod, rng.randrange(1, rr), rng.randrange(1, rr))))
         r = grp(mod, "G1").order
         ref = mod.startswith("Ref")
         if ref and tier == "quick":
